@@ -106,11 +106,26 @@ SIMPLE_SETUPS = [
      ({'simple': True}, {'simple': True})),
     ([('MIT', ['MIT License'], False), ('GPL-2.0', ['GNU GPL 2'], False), ('Classpath-2.0', [], True)], 'gpl-2.0 and mit',
      ({'simple': True, 'validate': True}, {})),
+    # the same text asked with other options by the other thread: an option of one call is not an option of the other
+    ([('MIT', ['MIT License'], False), ('GPL-2.0', ['GNU GPL 2'], False), ('Classpath-2.0', [], True)], 'GNU GPL 2 with mit or mit',
+     ({'strict': True}, {})),
+    ([('MIT', ['MIT License'], False), ('GPL-2.0', ['GNU GPL 2'], False), ('Classpath-2.0', [], True)], 'gpl-2.0 with classpath-2.0 or foo',
+     ({'validate': True}, {'strict': True})),
+    ([('MIT', ['MIT License'], False), ('GPL-2.0', ['GNU GPL 2'], False), ('Classpath-2.0', [], True)], 'classpath-2.0 or MIT License',
+     ({'strict': True, 'simple': True}, {'simple': False})),
 ]
 
 
 def expected_for(T, text, kw=None):
-    return str(make_licensing(T).parse(text, **(kw or {})))
+    """What the call returns alone: the rendering, or ('raised', type name, message)."""
+    try:
+        return str(make_licensing(T).parse(text, **(kw or {})))
+    except Exception as ex:   # noqa
+        return ('raised', type(ex).__name__, str(ex))
+
+
+def outcome(result, error):
+    return result if error is None else ('raised', type(error).__name__, str(error))
 
 
 # two threads parsing different texts on one Licensing (anything kept on the shared tokenizer between two steps of one call
@@ -179,10 +194,8 @@ def run(rep, tier, seed):
                 rep.count('simple_first_use_schedules')
                 bad = 'the execution did not terminate under the scheduler' if dl else None
                 for i, r in enumerate(results):
-                    if errs[i] is not None:
-                        bad = bad or 'thread %d raised %s: %s' % (i, type(errs[i]).__name__, errs[i])
-                    elif r != wants[i]:
-                        bad = bad or 'thread %d returned %r, alone it returns %r' % (i, r, wants[i])
+                    if outcome(r, errs[i]) != wants[i]:
+                        bad = bad or 'thread %d (options %r): %r, alone: %r' % (i, kws[i], outcome(r, errs[i]), wants[i])
                 if bad:
                     rep.violations.append({'key': 'schedule', 'kind': 'schedule', 'table': T, 'text': text, 'schedule': schedule,
                                            'threads': 2, 'extra': None, 'kwargs': list(kws), 'what': bad})
@@ -264,6 +277,6 @@ def replay(payload):
     ptx = payload['text']
     ptxs = list(ptx) if isinstance(ptx, (list, tuple)) else [ptx] * payload['threads']
     wants = [expected_for(T, ptxs[min(i, len(ptxs) - 1)], (kws[i] if kws and i < len(kws) else None)) for i in range(payload['threads'])]
-    ok = all((errs[i] is None and (r == wants[i] or (payload.get('extra') == 'ctor' and i == payload['threads'] - 1)))
+    ok = all((outcome(r, errs[i]) == wants[i] or (errs[i] is None and payload.get('extra') == 'ctor' and i == payload['threads'] - 1))
              for i, r in enumerate(results))
     return ok, 'results %r (alone: %r)' % (results, wants[0])
